@@ -158,7 +158,7 @@ func (e *Engine) unitsFor(prop string, cfg *PropCfg) []*propUnit {
 	return out
 }
 
-var safetyClasses = map[string]bool{"bounds": true, "nilmap": true, "type-assert": true, "div0": true, "rand-arg": true, "panic": true, "nilptr": true, "lock": true, "overflow": true, "go-capture": true}
+var safetyClasses = map[string]bool{"bounds": true, "nilmap": true, "type-assert": true, "div0": true, "rand-arg": true, "panic": true, "nilptr": true, "lock": true, "overflow": true, "go-capture": true, "nilfunc": true}
 
 // relevant decides whether obligation o of unit pu counts for property prop.
 func relevantObl(o *Obligation, pu *propUnit, prop string, spec *FuncSpec) bool {
